@@ -1,9 +1,9 @@
 SPECIFICATION Spec
-CONSTANT OfmDepths = {1, 2, 3, 4, 5, 7, 8, 9, 12, 15, 16, 17, 20}
-CONSTANT IfmDepths = {1, 2, 3, 7, 8, 9, 15, 16, 17, 24, 31, 32, 33, 40}
+CONSTANT OfmDepths = {1, 2, 3, 4, 7, 8, 9, 15, 16, 17, 20}
+CONSTANT IfmDepths = {1, 2, 7, 8, 9, 15, 16, 17, 31, 32, 33, 40}
 CONSTANT KernelHs = {1, 2, 3}
 CONSTANT KernelWs = {1, 2, 3}
 CONSTANT Decomposing = TRUE
-CONSTANT BlockDepths = {4, 8, 12, 16, 24, 32}
+CONSTANT BlockDepths = {4, 8, 16, 24}
 INVARIANT OrderIsBijection
 CHECK_DEADLOCK FALSE
